@@ -426,6 +426,7 @@ def run_check(prop: Property, tier: str, seed: int, replay: Optional[str] = None
     cov["trusted_base"] = TRUSTED_BASE + ([f"not carried by the theorems: {prop.partial}"] if prop.partial else [])
 
     # 4-5: correspondence + oracle ----------------------------------------------------
+    covmeter = _coverage_start()
     n_target = prop.quick_cases if tier == "quick" else prop.thorough_cases
     cases: list[Case] = []
     if replay:
@@ -498,6 +499,7 @@ def run_check(prop: Property, tier: str, seed: int, replay: Optional[str] = None
             infra.append("search crashed: " + traceback.format_exc()[-1500:])
 
     # 7: verdict ----------------------------------------------------------------------
+    _coverage_report(covmeter, pid)
     distinct = {c.key() for c in cases if c.nontrivial}
     cov.update(
         evaluations=len(cases), distinct_nontrivial=len(distinct),
@@ -575,6 +577,54 @@ def run_check(prop: Property, tier: str, seed: int, replay: Optional[str] = None
           f"cases={len(cases)} validated={validated} mismatches={len(mismatches)} failures={len(failures)} "
           f"ties_broken={len(reasons)} wall={ev['wall_s']}s exit={rc}")
     return rc
+
+
+def _coverage_start():
+    """VERIF_COVERAGE=1 (diagnostic, see tools_coverage.sh): measure which lines of the anchored source the
+    correspondence cases, oracles and searches of this run execute - where the generator never goes, the tie is blind"""
+    if not os.environ.get("VERIF_COVERAGE"):
+        return None
+    os.environ.setdefault("COVERAGE_CORE", "sysmon")  # leaves sys.settrace to the harnesses that force schedules
+    import coverage
+    c = coverage.Coverage(data_file=None, source=[str(REPO / "src" / "term_image")], branch=False)
+    c.start()
+    return c
+
+
+def _coverage_report(c, pid: str) -> None:
+    if c is None:
+        return
+    c.stop()
+    prop = next((json.loads(l) for l in (VERIF / "properties.jsonl").read_text().splitlines()
+                 if l.strip() and json.loads(l)["id"] == pid), None)
+    out = {"property": pid, "mechanisms": []}
+    import_time = re.compile(r"^(async def |def |class |@|[A-Za-z_][A-Za-z_0-9]*\s*:\s*[^=]+$)")
+    for m in (prop or {}).get("anchors", {}).get("mechanism", []):
+        for where in [w.strip() for w in m["where"].split(";") if w.strip()]:
+            fn, _, ranges = where.partition(":")
+            path = REPO / fn
+            try:
+                _, executable, _, missing, _ = c.analysis2(str(path))
+                src = path.read_text().splitlines()
+                rs = []
+                for r in ranges.split(","):
+                    a, _, b = r.strip().partition("-")
+                    rs.append((int(a), int(b or a)))
+            except Exception as e:  # noqa: BLE001
+                out["mechanisms"].append({"name": m["name"], "where": where, "error": str(e)})
+                continue
+            inr = lambda n: any(a <= n <= b for a, b in rs)  # noqa: E731
+            # definitions run at import time, before the meter starts: not counted
+            live = lambda n: not import_time.match(src[n - 1].strip())  # noqa: E731
+            ex = [n for n in executable if inr(n) and live(n)]
+            ms = [n for n in missing if inr(n) and live(n)]
+            out["mechanisms"].append({"name": m["name"], "where": where, "executable": len(ex), "missed": len(ms),
+                                      "missed_lines": [f"{n}: {src[n - 1].strip()[:110]}" for n in ms]})
+    d = Path(os.environ.get("VERIF_COVERAGE_DIR") or VERIF / "coverage")
+    d.mkdir(exist_ok=True)
+    (d / f"{pid}.json").write_text(json.dumps(out, indent=1))
+    for m in out["mechanisms"]:
+        print(f"COVERAGE {pid} {m['where']} missed {m.get('missed')}/{m.get('executable')}  ({m['name'][:60]})")
 
 
 def _crash_evidence(pid: str, tier: str, seed: int, why: str) -> None:
